@@ -3,9 +3,16 @@
    (counter changes through PendingTasksCounter.Update/Set and through real Submit / task completion, which are
    Update(+1) / Update(-1)); after every operation the harness records the value of every counter (creation order) and,
    for every group, whether a WaitChildren() / WaitParents() call has returned.  The model replays the history.
-   GFinal: final counter values of a free-running concurrent run (all must be back at zero). *)
+   GFinal: final counter values of a free-running concurrent run (all must be back at zero).
+   GPoolShutdown: a pool made by Group.CreatePool with the caller's option list `opts` (in order) was shut down while
+   `gated` accepted tasks had not finished (each worker executing at most one of them, parked at the harness's gate, the
+   rest queued), then the gates were opened and the shutdown completed: the tasks accepted / run / never run over the
+   pool's life, `ran_before` of them already before the Shutdown.  Judged (a) by the conservation predicate with the
+   cancel flag that the option resolution of Options.v gives for a group pool with these caller options and (b) against
+   the pool model (Model.v, configuration from the same resolution) run on the equivalent script. *)
 From Coq Require Import List ZArith Bool Arith.
-From Verif.C16_Pool Require Import Model Group.
+From Verif.C16_Pool Require Import Model Options Group.
+From Verif.C16_Pool Require Corr.
 Import ListNotations.
 
 Record gobs := mkGObs { go_vals : list Z; go_wc : list bool; go_wp : list bool }.
@@ -39,7 +46,17 @@ Definition gobs_eqb (a b : gobs) : bool :=
 
 Inductive gcase :=
   | GHist (ops : list gop) (observed : list gobs)
-  | GFinal (vals : list Z) (returned : bool).
+  | GFinal (vals : list Z) (returned : bool)
+  | GPoolShutdown (ncpu : nat) (opts : list popt) (gated ran_before : nat) (accepted ran_ cancelled : list nat) (pending_final : Z).
+
+(* Start; close the gate; g Submits of the gated task 0; Shutdown; open the gate; ShutdownComplete.Wait *)
+Definition backlog_script (g : nat) : list Corr.dir :=
+  Corr.XOp OStart :: Corr.XGate true :: repeat (Corr.XOp (OSubmit 0)) g ++ [Corr.XOp OShutdown; Corr.XGate false; Corr.XOp OWaitShutdown].
+
+(* (tasks run, tasks cancelled) in the model *)
+Definition model_split (pc : pcfg) (g : nat) : nat * nat :=
+  let (_, rf) := Corr.model_obs (to_cfg pc [[]]) [true] (backlog_script g) in
+  (length (ran (Corr.r_st rf)), length (canc (Corr.r_st rf))).
 
 (* besides model = implementation, the implementation's observations are checked against the specification side directly:
    WaitChildren has returned iff every pool below is idle (pools_idle_below evaluated on the model forest, whose values
@@ -59,6 +76,10 @@ Definition gagree (k : gcase) : bool :=
   match k with
   | GHist ops observed => list_eqb gobs_eqb (grun_obs [] ops) observed && spec_ok [] ops observed
   | GFinal vals returned => returned && forallb (fun v => (v =? 0)%Z) vals
+  | GPoolShutdown ncpu opts g rb a r x p =>
+      let pc := pool_cfg true ncpu opts in
+      conserved_b (pc_cancel pc) a r x p &&
+      (let (mr, mx) := model_split pc g in (length r =? rb + mr) && (length x =? mx))
   end.
 
 Fixpoint gmismatches_from (i : nat) (cs : list gcase) : list nat :=
